@@ -12,7 +12,12 @@
 #ifndef MAXLOSS
 #define MAXLOSS 1
 #endif
+#ifndef MAXFLIGHT
+#define MAXFLIGHT 0          /* messages the counterparty may still send (already in flight) between our ResendRequest and the start of its replay */
+#endif
+#define RQ 2                 /* ResendRequests the counterparty can have queued (it answers them one after the other) */
 #define W (K * (MAXLOSS + 1) + 1)
+uint32_t cx_caught[K];
 uint32_t cx_n, cx_loss[K], cx_isapp[K], cx_lostapp[K], cx_replaymode[K]; uint32_t cx_seq[K], cx_type[K], cx_nsn[K];
 static uint8_t sent_app[W], delivered[W];
 int main(void)
@@ -23,9 +28,18 @@ int main(void)
   vf_sess_set_flags(BASE, 1, 0, 0, 0, 0);
   uint8_t s[1] = { 'S' }, t[1] = { 'T' }; vf_sess_set_sid(BASE, s, 1, t, 1);
   uint32_t c = n, replay_cur = 0, replay_end = 0;       /* replay in progress iff replay_cur < replay_end */
+  uint32_t rq[RQ] = { 0, 0 }, rq_n = 0, flight = 0;    /* requests received but not yet answered, in-flight messages used */
   int64_t clock = 1000;
   for (int i = 0; i < K; i++) {
     uint8_t type, pd = 0; uint32_t seq, nsn = 0;
+    if (replay_cur >= replay_end && rq_n > 0) {          /* a request is waiting: the counterparty reads it now, unless a message of its own was already in flight */
+      uint8_t defer = 0;
+#if MAXFLIGHT > 0
+      defer = nondet_bool(); if (flight >= MAXFLIGHT) defer = 0;
+#endif
+      if (defer) flight++;
+      else { replay_cur = rq[0]; replay_end = c; rq[0] = rq[1]; rq[1] = 0; rq_n--; }
+    }
     if (replay_cur < replay_end) {
       uint32_t j = replay_cur - n; VF_ASSUME(j < W);
       if (sent_app[j]) { type = 'D'; seq = replay_cur; pd = 1; replay_cur++; cx_replaymode[i] = 1; }
@@ -35,7 +49,7 @@ int main(void)
         type = '4'; seq = replay_cur; pd = 1; nsn = e; replay_cur = e; cx_replaymode[i] = 2;
       }
     } else {
-      uint32_t loss = nondet_u32(); VF_ASSUME(loss <= MAXLOSS); cx_loss[i] = loss;
+      uint32_t loss = nondet_u32(); VF_ASSUME(loss <= MAXLOSS); if (rq_n) loss = 0;   /* in-flight messages travel on the live connection */ cx_loss[i] = loss;
       uint32_t lostapp = nondet_u32(); cx_lostapp[i] = lostapp;
 #ifdef KF_POSSDUP_REPLAY
       loss = 0; cx_loss[i] = 0;              /* complement of the known-finding class: no message is ever lost (no gap to recover) */
@@ -59,11 +73,16 @@ int main(void)
       VF_ASSERT(out_kind[o] != G_LOGOUT, "C20: no Logout is sent to a conformant counterparty");
       if (out_kind[o] == G_RESEND_REQUEST) {
         VF_ASSERT(out_a[o] >= n && out_a[o] < c && out_b[o] == 0, "C20: a ResendRequest asks for numbers the counterparty has sent, to the latest");
-        replay_cur = out_a[o]; replay_end = c;
+        VF_ASSUME(rq_n < RQ);                   /* bound: at most RQ unanswered requests */
+        rq[rq_n] = out_a[o]; rq_n++;
       }
     }
     if (n_deliver > del0) { VF_ASSERT(n_deliver == del0 + 1 && deliver_seq - n < W && sent_app[deliver_seq - n], "C20: only application messages the counterparty sent are delivered"); delivered[deliver_seq - n] = 1; }
-    if (replay_cur >= replay_end) {     /* the counterparty has caught up */
+    cx_caught[i] = replay_cur >= replay_end && rq_n == 0;
+#if MAXFLIGHT == 0
+    if (replay_cur >= replay_end && rq_n > 0) { replay_cur = rq[0]; replay_end = c; rq[0] = rq[1]; rq[1] = 0; rq_n--; }   /* answered before anything else is sent */
+#endif
+    if (replay_cur >= replay_end && rq_n == 0) {     /* the counterparty has caught up */
       VF_ASSERT(vf_sess_next_recv(BASE) == c, "C20: after recovery the expected inbound number equals the counterparty's next number");
       for (uint32_t q = 0; q < W; q++) if (q < c - n && sent_app[q]) VF_ASSERT(delivered[q], "C20: every application message the counterparty sent has been delivered at least once");
     }
